@@ -100,11 +100,11 @@ class Cases:
         self.truth = {}  # case text key -> (sealed stub or None)
         self.ctx = ctx
 
-    def add(self, case, sealed_stub, authentic=False):
+    def add(self, case, sealed_stub, authentic=False, wire=None):
         from ..val import enc
 
         self.cases.append(case)
-        self.truth[enc(case)] = (sealed_stub, authentic)
+        self.truth[enc(case)] = (sealed_stub, authentic, wire)
 
 
 def gen(ctx: Ctx) -> Cases:
@@ -116,7 +116,7 @@ def gen(ctx: Ctx) -> Cases:
             sign = sig_sign
             seq = 3
             wire, stub = sealed_reply(data, 16, bool(sign), seq)
-            cs.add([fl, 1, sign, 1, seq, wire], stub, authentic=True)
+            cs.add([fl, 1, sign, 1, seq, wire], stub, authentic=True, wire=wire)
             # replay: the receiver expects another sequence number
             cs.add([fl, 1, sign, 1, seq + 1, wire], stub)
             # header signing negotiated differently from what the peer used
@@ -133,7 +133,7 @@ def gen(ctx: Ctx) -> Cases:
                         continue
                     m = bytearray(wire)
                     m[byte] ^= 1 << bit
-                    cs.add([fl, 1, sign, 1, seq, bytes(m)], stub)
+                    cs.add([fl, 1, sign, 1, seq, bytes(m)], stub, wire=wire)
             # field edits
             off = len(wire) - 16 - 8
             for (o, v) in [(off + 2, 0), (off + 2, 15), (off + 2, 200), (10, 0), (10, 15), (10, 17), (8, len(wire) - 1), (8, len(wire) - 16), (2, 3), (2, 0), (2, 12)]:
@@ -153,7 +153,7 @@ def make_pred(cs: Cases):
     from ..val import enc
 
     def pred(arg, out):
-        sealed_stub, authentic = cs.truth.get(enc(arg), (None, False))
+        sealed_stub, authentic, wire = cs.truth.get(enc(arg), (None, False, None))
         if not arg[1]:
             return None
         if isinstance(out, Err) or out is None:
@@ -162,11 +162,19 @@ def make_pred(cs: Cases):
             return None
         if sealed_stub is None or bytes(out) != bytes(sealed_stub):
             return "a reply that the security context did not seal (or sealed with other content) was accepted: stub " + bytes(out)[:24].hex()
-        if not authentic:
-            # accepted although altered: acceptable only when the alteration left the protected bytes alone
-            stream = bytes(arg[5])
-            good, _ = sealed_reply(bytes(sealed_stub).rstrip(b"\x00"), 16, bool(arg[2]), arg[4]) if False else (None, None)
-            return None
+        if not authentic and wire is not None:
+            # accepted although altered: acceptable only when the alteration left the protected octets alone:
+            # body and signature always; the 24 header octets and the 8-octet trailer header when header signing is on
+            stream, sign = bytes(arg[5]), bool(arg[2])
+            if len(stream) == len(wire):
+                off = len(wire) - 16 - 8
+                protected = set(range(24, off)) | set(range(off + 8, len(wire)))
+                if sign:
+                    protected |= set(range(0, 24)) | set(range(off, off + 8))
+                changed = [i for i in range(len(wire)) if stream[i] != wire[i]]
+                hit = [i for i in changed if i in protected]
+                if hit:
+                    return f"a reply altered at octet {hit[0]} (protected by the security context{' with header signing' if sign else ''}) was accepted"
         return None
 
     return pred
